@@ -133,7 +133,7 @@ func cmdCheck(args []string) int {
 	if *only != "" {
 		var tt []Target
 		for _, t := range targets {
-			if strings.Contains(t.Name, *only) {
+			if strings.HasPrefix(*only, "=") && t.Name == (*only)[1:] || !strings.HasPrefix(*only, "=") && strings.Contains(t.Name, *only) {
 				tt = append(tt, t)
 			}
 		}
@@ -369,7 +369,7 @@ func runTarget(p *Loaded, t Target, selRet int) (res *TargetResult) {
 			x.mayNil[n] = true
 		}
 		for k, v := range t.Spec.Shape {
-			x.shapeLen[k] = v
+			x.shapeLen[strings.TrimLeft(k, "*")] = v
 		}
 		x.harness = t.Spec.SSAName
 		x.behavior, x.behaviorFn, x.noSafety = t.Spec.Behavior, t.Spec.SSAName, t.Spec.NoSafety
@@ -396,7 +396,7 @@ func runTarget(p *Loaded, t Target, selRet int) (res *TargetResult) {
 			x.mayNil[n] = true
 		}
 		for k, v := range t.Lemma.Shape {
-			x.shapeLen[k] = v
+			x.shapeLen[strings.TrimLeft(k, "*")] = v
 		}
 	}
 	args := make([]Value, len(h.Params))
